@@ -25,9 +25,10 @@ MemFor(e) == IF e.sid = mem.sid THEN mem ELSE [sid |-> e.sid, snap |-> << >>, ob
 \* C08: a value's observation (serialisation + every accessor) never changes after its first observation,
 \* whatever the caller overwrote in between (Scribble / ScribbleReturned steps of the session)
 JObserve(e, m) ==
-  << R("C08", "observation_unchanged_after_overwrite", e.r.has /\ e.h \in DOMAIN m.snap, e.r.obs = m.snap[e.h],
+  \* (ext: structures the property's list leaves out - extension family X05)
+  << R(IF "ext" \in DOMAIN e THEN "X05" ELSE "C08", "observation_unchanged_after_overwrite", e.r.has /\ e.h \in DOMAIN m.snap, e.r.obs = m.snap[e.h],
        e.fn \o "/" \o (IF "cls" \in DOMAIN e THEN e.cls ELSE "-")),
-     R("C08", "value_observable", TRUE, e.r.has /\ "unobservable" \notin DOMAIN e.r.obs, e.fn) >>
+     R(IF "ext" \in DOMAIN e THEN "X05" ELSE "C08", "value_observable", TRUE, e.r.has /\ "unobservable" \notin DOMAIN e.r.obs, e.fn) >>
 MemNext(e, m) ==
   IF e.op = "Observe" /\ e.r.has /\ e.h \notin DOMAIN m.snap
   THEN [m EXCEPT !.snap = [k \in (DOMAIN m.snap) \cup {e.h} |-> IF k = e.h THEN e.r.obs ELSE m.snap[k]]]
@@ -39,8 +40,8 @@ Judge(e) ==
   THEN << R("C04", "returns_normally", TRUE, FALSE, e.op \o "/" \o e.fn) >>
   ELSE CASE e.op \in PrimOps -> JPrims(e)
          [] e.op = "Observe" -> JObserve(e, MemFor(e))
-         [] e.op = "ReadSigned" -> << R("C08", "signed_value_obtained_and_verifies", TRUE, e.r.setup /\ e.r.verify, e.fn \o "/" \o e.cls) >>
-         [] e.op \in {"Scribble", "ScribbleReturned"} -> << R("C08", "overwrite_performed", TRUE, e.r.done, e.op) >>
+         [] e.op = "ReadSigned" -> << R(IF "ext" \in DOMAIN e THEN "X05" ELSE "C08", "signed_value_obtained_and_verifies", TRUE, e.r.setup /\ e.r.verify, e.fn \o "/" \o e.cls) >>
+         [] e.op \in {"Scribble", "ScribbleReturned"} -> << R(IF "ext" \in DOMAIN e THEN "X05" ELSE "C08", "overwrite_performed", TRUE, e.r.done, e.op) >>
          [] e.op = "Read" -> JRead(e) \o JAccOne(e.fn, e["in"], e.r, e) \o JAcc2One(e.fn, e["in"], e.r, e)
          [] e.op = "Twins" -> JTwinsWith(e, JAcc2One)
          [] e.op = "Tables" -> JTables(e)
